@@ -194,6 +194,9 @@ def build_inputs(case):
     if x is not None:
         if 'scalar' in x: inputs['expiry'] = expv(x['scalar'])
         else: inputs['expiry'] = mk_table(on, x['rows'], x.get('layout', 'data'), [expv(e) for _, e in x['rows']], order=x.get('order', 0))
+    sp = case.get('renames_spelling')
+    if renames and sp in ('str', 'list1') and len(renames) == 1:          # renames='col' / ['col'] instead of {input: 'col'}
+        renames = list(renames.values())[0] if sp == 'str' else list(renames.values())
     mode = case.get('defaults_mode') or ('dict' if defaults else 'empty' if case.get('defaults_given') else 'none')
     return inputs, (None if mode == 'none' else {} if mode == 'empty' else defaults), (renames or None)
 
@@ -684,6 +687,18 @@ def decorate(rng, case, force=None):
         if t:
             t[0]['pydefault'] = {'v': rand_pv(rng)}; [a.pop('default', None) for a in args]
             case['defaults_mode'] = rng.choice(['none', 'empty', 'empty'])
+    # ---- renames= spelled as a plain column name or a one-element list (it then applies to every table input: only with a single table)
+    tabs_all = [a for a in args if a['kind'] in ('table', 'same')]
+    xt = case.get('expiry') is not None and 'rows' in case['expiry']
+    if force == 'renames' and len(tabs_all) >= 1:
+        for a in tabs_all[1:]:
+            nm = a['name']; keep = {k: v for k, v in a.items() if k in ('default', 'pydefault')}
+            a.clear(); a.update(keep); a.update({'name': nm, 'kind': 'scalar', 'v': rand_pv(rng)})
+        tabs_all = tabs_all[:1]; tabs_all[0]['layout'] = 'renamed'
+        case['data'] = None; case.pop('outputs', None); case.pop('caches', None)
+        if xt: case['expiry'] = None; xt = False
+    if len(tabs_all) == 1 and tabs_all[0].get('layout') == 'renamed' and case.get('data') is None and not case.get('caches') and not xt:
+        case['renames_spelling'] = rng.choice(['dict', 'str', 'list1'])
     # ---- output_is_input option (True is the default), mostly where previously computed values are supplied
     cached = case.get('data') is not None or bool(case.get('caches'))
     if rng.random() < (0.45 if cached else 0.1):
@@ -725,7 +740,7 @@ def decorate(rng, case, force=None):
 
 KEYNAMES = ['k', 'm', 'B', 'zk', 'aa', 'c9']      # before / between / after the value columns a b c d data expiry zz_*
 def rand_case(rng, stream='rand'):
-    force = stream if stream in ('list', 'defaults', 'same', 'again') else None
+    force = stream if stream in ('list', 'defaults', 'same', 'again', 'renames') else None
     nk = rng.choice([1, 1, 2, 2])
     on = rng.sample(KEYNAMES, nk)            # any order: 'sorted by key' = lexicographic in the order of `on`
     uni = universe(rng, nk)
@@ -766,6 +781,18 @@ def rand_case(rng, stream='rand'):
         case['kind'] = 'pjoin'; case['data'] = None; case['expiry'] = None; case.pop('outputs', None); case.pop('caches', None); case.pop('again', None)
         for a in case['args']: a.pop('pydefault', None)            # python defaults of f play no part in a direct join
         if case['defaults_mode'] == 'none' and any('default' in a for a in case['args']): case['defaults_mode'] = 'dict'
+    # (not with an EMPTY table: dictable.rename on an empty table drops a column called data - a dictable quirk outside C20, reported)
+    nonempty = all(len(a['rows']) > 0 for a in case['args'] if a['kind'] == 'table') and all(len(c['rows']) > 0 for c in (case.get('caches') or {}).values()) \
+        and not (case['expiry'] is not None and 'rows' in case['expiry'] and len(case['expiry']['rows']) == 0)
+    if (case.get('outputs') or case.get('kind') == 'pjoin') and nonempty and rng.random() < 0.2:
+        # a key column called `data` (the name _item treats specially when it is NOT a key); not on the plain-function path,
+        # whose output column is itself called data
+        case['on'] = list(case['on']); case['on'][rng.randrange(len(case['on']))] = 'data'
+        for a in case['args']:
+            if a.get('layout') == 'data': a['layout'] = 'other'
+        for c in (case.get('caches') or {}).values():
+            if c.get('layout') == 'data': c['layout'] = 'named'
+        if case['expiry'] is not None and 'rows' in case['expiry']: case['expiry']['layout'] = 'expiry'
     return case
 
 def large_case(rng):
@@ -817,7 +844,7 @@ def gen_cases(rng, tier):
     ex = exhaustive()
     for _ in range(400 if q else 4000):
         cases.append(partial_case(rng))
-    for force, n in (('list', 200), ('defaults', 200), ('same', 120), ('again', 150)):
+    for force, n in (('renames', 80), ('list', 200), ('defaults', 200), ('same', 120), ('again', 150)):
         for _ in range(n if q else 10 * n):
             c = rand_case(rng, force)
             cases.append(c)
